@@ -18,10 +18,12 @@ RULE = (
     "derives from the source path only through injective steps (join under a fixed prefix, with_extension, strip_prefix of a base that "
     "is fixed for the whole call); a lossy step (file_name / file_stem) or a strip_prefix whose base changes inside the loop over "
     "source directories needs a collision check (a set insert of the produced path whose failure is an error) before the PathSet is "
-    "returned."
+    "returned. R4 the arguments of gen_filelist / check_bundle / sort_filelist in CmdBuild::exec carry nothing that was built inside the loop "
+    "over this run's contexts (files restored from the incremental cache have none). R5 every file_scope_import* list of CreateSymbolTable "
+    "flows into the import list of the TypeDagCandidate built in pop_type_dag_cand (the type DAG orders the filelist)."
 )
 
-CRATES = ["veryl", "veryl_metadata", "veryl_std", "veryl_path"]
+CRATES = ["veryl", "veryl_metadata", "veryl_std", "veryl_path", "veryl_analyzer"]
 SF = "veryl::cmd_build::CmdBuild::sort_filelist"
 MP = "veryl_metadata::metadata::Metadata::paths"
 LINEAR = re.compile(r"HashMap::<K, V, S, A>::(remove|into_values|remove_entry|drain)$|BTreeMap::<K, V, A>::(remove|into_values|pop_first|pop_last)$")
@@ -207,7 +209,59 @@ def run(world, tier, info, only=None):
                       ("%s (%s arm) uses %s, and a collision check guards the result" % (nm, arm, risky) if has_check else
                        "%s (%s arm) is derived through %s with no collision check: two source files can be given the same output path" % (nm, arm, risky)))
         ck.floor("R3", "definitions of dst/map in " + _short(P), n, 4)
-    ck.analysed = {"functions": [SF, MP]}
+    # ---------------- R4 which files are listed does not depend on which files this run re-processed ----------------------------
+    import taint
+    EX = "veryl::cmd_build::CmdBuild::exec"
+    if EX in w.fns:
+        sx = w.fns[EX]
+        g = Fn(w.mir(EX))
+        loops = [(h, t) for h, t, some, none, item in flow.loops_over(g)
+                 if any(r[0] == "call" and re.search(r"Vec::<T, A>::drain$|pipeline::analyze$", r[1] or "") for r, _ in flow.access_paths(g, t["args"][0]))
+                 or "contexts" in repr(flow.fmt_path(flow.access_path(g, t["args"][0]), g))]
+        ck.floor("R4", "emit loops over the analysed contexts", len(loops), 1)
+        seeds = {id(t) for h, t in loops}
+        tn = taint.Taint(g, seed_call=lambda t: id(t) in seeds, containers=True,
+                         pure=re.compile(r"Clone>::clone$|Deref>::deref$|::as_ref$|::as_path$|::to_path_buf$|Try>::branch$"))
+        LISTERS = re.compile(r"^veryl::cmd_build::CmdBuild::(gen_filelist|check_bundle|sort_filelist)$")
+        n_l = 0
+        for bi, t in g.calls(LISTERS.pattern):
+            n_l += 1
+            bad = [i for i, a in enumerate(t["args"]) if tn.op_tainted(a)]
+            ck.ob("R4", "filelist-independent-of-emit-loop:%s" % t["callee"].split("::")[-1], not bad, site(sx, t["l"]),
+                  "the filelist is computed from the project's paths and the analysis result only" if not bad else
+                  "argument %s of %s is built inside the loop over this run's contexts: files whose analysis was restored from the incremental "
+                  "cache have no context, so the set of listed files depends on what happened to be re-processed" % (bad, t["callee"].split("::")[-1]))
+        ck.floor("R4", "filelist producers called from CmdBuild::exec", n_l, 2)
+    else:
+        ck.missing("R4", EX)
+    # ---------------- R5 every kind of file-scope import reaches the type DAG (it orders the filelist) ----------------------------
+    CS = "veryl_analyzer::handlers::create_symbol_table::CreateSymbolTable"
+    PD = CS + "::pop_type_dag_cand"
+    if PD in w.fns and CS in w.adts:
+        sp = w.fns[PD]
+        g = Fn(w.mir(PD))
+        imp_fields = [x["name"] for x in w.adts[CS]["variants"][0]["fields"] if x["name"].startswith("file_scope_import")]
+        ck.floor("R5", "file-scope import lists of CreateSymbolTable", len(imp_fields), 2)
+        # the `import` operand of the TypeDagCandidate::Symbol built here
+        aggs = []
+        for bi, b in enumerate(g.blocks):
+            if b.get("cu"):
+                continue
+            for st in b["s"]:
+                if st[0] == "=" and st[2][0] == "agg" and isinstance(st[2][1], dict) and (st[2][1].get("adt") or "").endswith("TypeDagCandidate"):
+                    aggs.append((bi, st))
+        ck.floor("R5", "TypeDagCandidate constructions in pop_type_dag_cand", len(aggs), 1)
+        for fld in imp_fields:
+            tn = taint.Taint(g, seed_place=lambda pl, fld=fld: any(isinstance(q, list) and q[0] == "f" and q[2] == fld for q in pl[1]), containers=True,
+                             pure=re.compile(r"Clone>::clone$|Deref>::deref$|IntoIterator>::into_iter$"))
+            ok = bool(aggs) and all(any(tn.op_tainted(o) for o in st[2][2]) for bi, st in aggs)
+            ck.ob("R5", "import-reaches-type-dag:%s" % fld, ok, site(sp),
+                  "self.%s flows into the `import` list of the symbol's type-DAG candidate" % fld if ok else
+                  "self.%s never reaches the type-DAG candidate: a file-scope import of that kind adds no edge, so the importing file can be "
+                  "listed before the file that defines the imported package" % fld)
+    else:
+        ck.missing("R5", PD)
+    ck.analysed = {"functions": [SF, MP, EX, PD]}
     return ck.finish(info)
 
 
